@@ -169,7 +169,7 @@ def run(ctx):
                         diffs.append(f"constraint {name} not equivalent")
             if diffs:
                 r.oracle_fail("writer-output", req, "roundtrip:same-model", "; ".join(diffs[:4]))
-            for fail in fmt.graph_wf(cur):
+            for fail in fmt.graph_wf(cur, written=fmt.written_names(m)):
                 r.oracle_fail("writer-output", req, "graph:" + fail[0], fail[1])
             text = ret
             for cyc in range(2, 4):
@@ -236,7 +236,7 @@ def run_third_party(ctx):
                     diffs.append(f"constraint {name}")
             if diffs:
                 r.oracle_fail(label, rreq, "denotes:same-model", "; ".join(diffs[:3]))
-            for fail in fmt.graph_wf(holder["fm"]):
+            for fail in fmt.graph_wf(holder["fm"], written=fmt.written_names(m)):
                 r.oracle_fail(label, rreq, "graph:" + fail[0], fail[1])
     finally:
         sc.close()
